@@ -1,0 +1,40 @@
+//go:build verif
+
+package assuan
+
+import (
+	"encoding/hex"
+	"strings"
+)
+
+// VerifParseCsExp runs the unexported canonical S-expression parser on blob and renders the tree:
+// an atom is "a<hex>" ("a-" when empty), a list is "(" items separated by spaces ")"; the root is printed as a list.
+func VerifParseCsExp(blob []byte) (string, error) {
+	root, err := parseCsExp(blob)
+	if err != nil {
+		return "", err
+	}
+	var b strings.Builder
+	var render func(e *csExp)
+	render = func(e *csExp) {
+		if e.Value != nil {
+			b.WriteString("a")
+			if len(e.Value) == 0 {
+				b.WriteString("-")
+			} else {
+				b.WriteString(hex.EncodeToString(e.Value))
+			}
+			return
+		}
+		b.WriteString("(")
+		for i, it := range e.Items {
+			if i > 0 {
+				b.WriteString(" ")
+			}
+			render(it)
+		}
+		b.WriteString(")")
+	}
+	render(root)
+	return b.String(), nil
+}
